@@ -748,10 +748,12 @@ class CSemantics:
     def on_ternop(self, lhs, op, mid, rhs, location):
         """Handle ternary operator 'a ? b : c'"""
         lhs = self.check_condition(lhs)
-        # TODO: For now, we use the common type of b and c as the result
-        # But is this correct?
+        # The result has the type the usual arithmetic conversions give
+        # for b and c, those start with the integer promotions:
         mid = self.pointer(mid)
         rhs = self.pointer(rhs)
+        mid = self.promote(mid)
+        rhs = self.promote(rhs)
         common_type = self.get_common_type(mid.typ, rhs.typ, location)
         mid = self.coerce(mid, common_type)
         rhs = self.coerce(rhs, common_type)
